@@ -622,6 +622,104 @@ class UDPClientWhileConnecting(Path):
         return self.client.aclose()
 
 
+class DatagramEndpointBehindSender(Path):
+    """AsyncDatagramEndpoint.aclose() while another task is suspended in send_packet(): closing is not a send, it goes ahead."""
+
+    name = "AsyncDatagramEndpoint.aclose (another task is suspended in send_packet)"
+
+    async def setup(self) -> None:
+        from easynetwork.lowlevel.api_async.endpoints.datagram import AsyncDatagramEndpoint
+        from easynetwork.protocol import DatagramProtocol
+        from easynetwork.serializers.line import StringLineSerializer
+
+        self.backend = _backend()
+        path = self
+        gate = asyncio.Event()
+
+        class RecDg(memtransport.MemDatagramTransport):
+            async def send(self, data: Any) -> None:
+                await gate.wait()  # the socket's buffer is full
+
+            async def aclose(self) -> None:
+                path.log({"ev": "inner_close", "i": 1})
+                for _ in range(2):
+                    await asyncio.sleep(0)
+                if path.fail_inner == 1:
+                    self.closing = True
+                    raise ConnectionResetError(104, "injected close failure")
+                await super().aclose()
+
+        self.t = RecDg(self.backend)
+        self.ep = AsyncDatagramEndpoint(self.t, DatagramProtocol(StringLineSerializer()))
+        st = asyncio.ensure_future(_swallow(self.ep.send_packet("blocked")))
+        await harness.settle()
+
+        async def stop() -> None:
+            st.cancel()
+            await asyncio.gather(st, return_exceptions=True)
+
+        self.cleanup.append(stop)
+
+    def close(self) -> Awaitable[None]:
+        return self.ep.aclose()
+
+
+class UDPServerTwoListeners(Path):
+    """AsyncUDPNetworkServer.server_close() with two listeners (two addresses): whatever happens to the call, both are closed."""
+
+    name = "AsyncUDPNetworkServer.server_close (two listeners)"
+    ninner = 2
+
+    async def setup(self) -> None:
+        import socket
+
+        from easynetwork.lowlevel.socket import INETSocketAttribute
+        from easynetwork.protocol import DatagramProtocol
+        from easynetwork.serializers.line import StringLineSerializer
+        from easynetwork.servers.async_udp import AsyncUDPNetworkServer
+        from easynetwork.servers.handlers import AsyncDatagramRequestHandler
+
+        self.backend = harness.HarnessBackend()
+        path = self
+        socks = []
+        for _ in range(2):
+            s = socket.socket(socket.AF_INET, socket.SOCK_DGRAM)
+            s.bind(("127.0.0.1", 0))
+            socks.append(s)
+            self.cleanup.append(s.close)
+
+        def make(*a: Any, **kw: Any) -> list[Any]:
+            out = []
+            for i, s in enumerate(socks):
+
+                class RecListener(memtransport.MemDatagramListener):
+                    idx = i + 1
+
+                    async def aclose(self) -> None:
+                        path.log({"ev": "inner_close", "i": self.idx})
+                        for _ in range(2):
+                            await asyncio.sleep(0)  # (the asyncio listener waits for connection_lost() here)
+                        if path.fail_inner == self.idx:
+                            self.closing = True
+                            raise ConnectionResetError(104, "injected close failure")
+                        await super().aclose()
+
+                out.append(RecListener(self.backend, extra={INETSocketAttribute.socket: lambda s=s: s, INETSocketAttribute.family: lambda s=s: s.family, INETSocketAttribute.sockname: lambda s=s: s.getsockname()}))
+            return out
+
+        self.backend.udp_listeners_factory = make
+
+        class H(AsyncDatagramRequestHandler[str, str]):
+            async def handle(self, client: Any) -> Any:
+                yield
+
+        self.server = AsyncUDPNetworkServer(None, 0, DatagramProtocol(StringLineSerializer()), H(), backend=self.backend)
+        await self.server.server_activate()
+
+    def close(self) -> Awaitable[None]:
+        return self.server.server_close()
+
+
 PATHS: list[type[Path]] = [
     TLSCloseAnswer,
     TLSCloseStall,
@@ -643,6 +741,8 @@ PATHS: list[type[Path]] = [
     EndpointBehindReader,
     TCPClientBehindReader,
     ServerSideTeardownBehindSender,
+    DatagramEndpointBehindSender,
+    UDPServerTwoListeners,
 ]
 
 
